@@ -121,6 +121,55 @@ def case_container(rep):
     return fn
 
 
+def case_container3d(rep):
+    """Three blocks (two of one cell type) in 3D with round-off sized noise on the shared faces, merged with a tolerance."""
+    def fn(run):
+        import felupe as fem
+        rng = rng_for(run.seed, "C20", "container3d", rep)
+        with scratch() as d:
+            h1 = fem.Cube(a=(0, 0, 0), b=(1, 1, 1), n=(3, 3, 2))
+            tt = fem.Cube(a=(1, 0, 0), b=(2, 1, 1), n=(3, 3, 2)).triangulate()
+            h2 = fem.Cube(a=(0, 1, 0), b=(1, 2, 1), n=(3, 3, 2))
+            parts = [m.copy(points=m.points + 1e-9 * rng.uniform(-1, 1, m.points.shape)) for m in (h1, tt, h2)]
+            dec_build = [6, 5, 4][rep % 3]
+            cont = fem.MeshContainer(parts, merge=True, decimals=dec_build)
+            nunique = len(np.unique(np.round(np.vstack([m.points for m in (h1, tt, h2)]), 6), axis=0))
+            if all(m.points is cont.points for m in cont.meshes):
+                run.ok("files.container", unit="container3d:shared-points")
+            else:
+                run.fail("files.container", "clause=container-merge-shares-points[3 blocks]", "MeshContainer(merge=True, decimals=): blocks do not share the container's points")
+            if len(cont.points) == nunique:
+                run.ok("files.container", unit="container3d:merged-count", config=("container3d", dec_build))
+            else:
+                run.fail("files.container", "clause=container-merge-count decimals=%d" % dec_build,
+                         "MeshContainer(merge=True, decimals=%d): %d points, expected %d" % (dec_build, len(cont.points), nunique))
+            for k, (m, ref) in enumerate(zip(cont.meshes, parts)):
+                run.compare("files.container", "clause=container-merge-corners block=%d" % k, maxabs(m.points[m.cells] - ref.points[ref.cells]), 10.0 ** (-dec_build),
+                            "merging moved a cell corner by more than the tolerance", unit="container3d:corners")
+            for ext in ("vtu", "xdmf"):
+                fn_ = os.path.join(d, "c3." + ext)
+                cont.as_meshio().write(fn_)
+                for dec in (None, 8, 3):
+                    mc = fem.mesh.read(fn_, dim=3, merge=True, decimals=dec)
+                    # blocks of one cell type are written as one block: the file holds the hexahedra of both boxes together
+                    if sorted(m.cell_type for m in mc.meshes) != ["hexahedron", "tetra"]:
+                        run.fail("files.container", "format=%s clause=cell-blocks[3 blocks]" % ext, "read() does not return one mesh per cell type")
+                        continue
+                    if all(m.points is mc.points for m in mc.meshes):
+                        run.ok("files.container", unit="read3d:merge-shares-points", config=("read3d", ext, dec))
+                    else:
+                        run.fail("files.container", "format=%s decimals=%s clause=read-merge-shares-points" % (ext, dec), "read(merge=True, decimals=): blocks do not share one point array")
+                    for m in mc.meshes:
+                        refc = np.concatenate([r_.points[r_.cells] for r_ in cont.meshes if r_.cell_type == m.cell_type], axis=0)
+                        tol = 0.0 if dec is None else 10.0 ** (-dec)
+                        if refc.shape != m.points[m.cells].shape:
+                            run.fail("files.container", "format=%s decimals=%s clause=cell-count[3 blocks]" % (ext, dec), "number of cells read back differs")
+                            continue
+                        run.compare("files.container", "format=%s decimals=%s clause=cell-geometry[3 blocks]" % (ext, dec), maxabs(m.points[m.cells] - refc), tol + 1e-15,
+                                    "cells read back (merged with a tolerance) have other corner coordinates", unit="read3d:cell-geometry")
+    return fn
+
+
 def case_job(rep):
     def fn(run):
         import felupe as fem
@@ -128,17 +177,19 @@ def case_job(rep):
         rng = rng_for(run.seed, "C20", "job", rep)
         mon = SolverMonitor(run, reassemble=False).attach()
         try:
-            kind, fam = [("3d", "hexahedron"), ("planestrain", "quad"), ("3d", "tetra"), ("ni", "hexahedron"), ("3d", "hexahedron20")][rep % 5]
+            kind, fam = [("3d", "hexahedron"), ("planestrain", "quad"), ("3d", "tetra"), ("ni", "hexahedron"), ("3d", "hexahedron20"),
+                         ("mixed", "hexahedron"), ("axisymmetric", "quad")][rep % 7]
             field, bounds, lc, items, mesh = C07.build(rng, kind, fam, "NeoHooke", ())
             L0 = float(mesh.points[:, 0].max())
             nsteps = int(rng.integers(1, 4))
             inject = rep % 3 == 2
             steps, total, fail_at = [], 0, None
             last = 0.0
+            fail_step = int(rng.integers(0, nsteps))  # any step: no frame of a later step may appear
             for s in range(nsteps):
                 n = int(rng.integers(1, 6))
                 move = np.linspace(last, last + float(rng.uniform(0.05, 0.15)) * L0, n + 1)[1:]
-                if inject and s == nsteps - 1:
+                if inject and s == fail_step:
                     k = int(rng.integers(0, n))
                     move = move.copy()
                     move[k] = -4.0 * L0
@@ -153,7 +204,11 @@ def case_job(rep):
                 job = fem.Job(steps)
                 raised = None
                 try:
-                    job.evaluate(filename="result.xdmf", point_data=pdata, cell_data=cdata, verbose=False, tol=1e-9, maxiter=10)
+                    opts = {}
+                    if rep % 4 == 1:
+                        opts = {"x0": field, "parallel": True}  # the documented start field and threaded assembly
+                        run.units["job:option:x0+parallel"] += 1
+                    job.evaluate(filename="result.xdmf", point_data=pdata, cell_data=cdata, verbose=False, tol=1e-9, maxiter=10, **opts)
                 except ValueError as e:
                     raised = e
                 rec = [e for e in mon.trace.events if e["kind"] == "job.callback"]
@@ -209,6 +264,11 @@ def case_job(rep):
                     sv = np.array([E[:, i, j] * (1 if i == j else 2) for i, j in VOIGT]).T
                     run.compare("files.job", "clause=frame-cell-data key=Logarithmic Strain", maxabs(np.asarray(cd["Logarithmic Strain"][0]) - sv) / max(maxabs(sv), 1e-300), 1e-9,
                                 "%s: cell data 'Logarithmic Strain' of frame %d is not the documented quantity" % (label, k), unit="job:cell-data")
+                    pr = (np.log(w)[..., ::-1] / 2).mean(0)  # principal logarithmic strains, descending, per-cell means
+                    gotp = np.asarray(cd["Principal Values of Logarithmic Strain"][0])
+                    run.compare("files.job", "clause=frame-cell-data key=Principal Values of Logarithmic Strain", maxabs(gotp - pr[:, : gotp.shape[1]]) / max(maxabs(pr), 1e-300),
+                                1e-9, "%s: cell data 'Principal Values of Logarithmic Strain' of frame %d is not the documented quantity" % (label, k),
+                                unit="job:cell-data:principal")
                     if custom:
                         run.compare("files.job", "clause=custom-point-data", maxabs(pd["Twice"] - 2 * u3), 0.0, "%s: custom point data differ" % label, unit="job:custom-data")
                         Jm = np.linalg.det(np.moveaxis(Fq, (0, 1), (-2, -1))).mean(0)
@@ -252,6 +312,8 @@ NAMES = ["line", "quad", "quad8", "quad9", "triangle", "triangle6", "hexahedron"
 def cases(tier, seed):
     out = [("roundtrip:" + n, case_roundtrip(n)) for n in NAMES]
     out.append(("container:0", case_container(0)))
+    for rep in range(1 if tier == "quick" else 3):
+        out.append(("container3d:%d" % rep, case_container3d(rep)))
     for rep in range(10 if tier == "quick" else 60):
         out.append(("job:%d" % rep, case_job(rep)))
     for rep in range(3 if tier == "quick" else 9):
